@@ -177,6 +177,20 @@ def tyOfScalar (l r : Val) : EM Sig :=
   | _, .sig _ t => pure t
   | _, _ => fail .kind "a signal operand is required here"
 
+/-- A "virtual channel": virtual signal names and compiler-allocated implicit types. -/
+def isVirtualChannel (ty : Sig) : Bool := ty.startsWith "signal-" || ty.startsWith "__"
+
+/-- Result type of a comparison: comparison results live on a virtual channel — the left operand's
+type if it is one, else the right operand's, else a fresh implicit type. (LANGUAGE_SPEC says "the
+left operand's type"; the implementation refines this for item/fluid-typed operands, and the model
+follows the implementation: see DESIGN §3.1, documentation discrepancy D1.) -/
+def cmpResultTy (l r : Val) : EM Sig :=
+  match l, r with
+  | .sig _ t, .sig _ u => if isVirtualChannel t then pure t else if isVirtualChannel u then pure u else freshImpl
+  | .sig _ t, _ => if isVirtualChannel t then pure t else freshImpl
+  | _, .sig _ u => if isVirtualChannel u then pure u else freshImpl
+  | _, _ => fail .kind "a signal operand is required here"
+
 def memCell (id : Nat) : EM MemCell := do
   return (← get).prog.mems.getD id default
 
@@ -264,7 +278,9 @@ def elabExpr (fuel : Nat) (e : SExpr) : EM Val :=
       | some o => let i ← pushNode (.arith o a b ty); pure (.sig i ty)
       | none =>
         match CmpOp.ofString? op with
-        | some c => let i ← pushNode (.cmp c a b ty); pure (.sig i ty)
+        | some c => do
+          let cty ← cmpResultTy lv rv
+          let i ← pushNode (.cmp c a b cty); pure (.sig i cty)
         | none =>
           if op == "&&" then do let i ← pushNode (.land a b ty); pure (.sig i ty)
           else if op == "||" then do let i ← pushNode (.lor a b ty); pure (.sig i ty)
@@ -309,7 +325,10 @@ def elabExpr (fuel : Nat) (e : SExpr) : EM Val :=
             match lv, rv with
             | .int x, .int y => pure (.int (if cmp c x y then k else 0))
             | _, _ =>
-              let ty ← tyOfScalar lv rv
+              -- integer output: the value lives on the comparison's left operand type
+              let ty ← match lv with
+                | .sig _ t => pure t
+                | _ => freshImpl
               let i ← pushNode (.gate c a b (.int k) ty); pure (.sig i ty)
           | _ => fail .kind "output value must be a signal, bundle or integer"
     | _ => fail .outspec "the expression before ':' must be a comparison"
